@@ -1,6 +1,7 @@
 pub mod chmux_wl;
 pub mod c01;
 pub mod c04;
+pub mod c05;
 pub mod c06;
 pub mod c10;
 pub mod c11;
@@ -13,6 +14,9 @@ pub mod c19;
 pub mod rtc_common;
 pub mod c15;
 pub mod c16;
+pub mod c17;
+pub mod c18;
+pub mod c20;
 
 use crate::harness::Check;
 
@@ -20,6 +24,7 @@ pub fn all() -> Vec<Check> {
     let mut v = Vec::new();
     v.extend(c01::checks());
     v.extend(c04::checks());
+    v.extend(c05::checks());
     v.extend(c06::checks());
     v.extend(c10::checks());
     v.extend(c11::checks());
@@ -29,6 +34,9 @@ pub fn all() -> Vec<Check> {
     v.extend(c19::checks());
     v.extend(c15::checks());
     v.extend(c16::checks());
+    v.extend(c17::checks());
+    v.extend(c18::checks());
+    v.extend(c20::checks());
     v
 }
 
